@@ -241,6 +241,9 @@ func c05Worker(c *core.Collector, x *Ctx) {
 		if r.Chance(1, 10) {
 			N = 1
 		}
+		if r.Chance(1, 16) {
+			N = 250 + r.Intn(60) // totals around and above 256 (package numbers are 16-bit on the wire)
+		}
 		class := r.Intn(8)
 		bodies := c05Bodies(r, N, class)
 		p := r.Perm(N - 1)
